@@ -178,7 +178,7 @@ func TestDecodeAllShortStrings(t *testing.T) {
 }
 
 func TestDecodeTruncationsAndExtensions(t *testing.T) {
-	s := rt.S("decode-truncations").SetRule("every truncation of the encoding of boundary and drawn values, and extensions by drawn bytes; non-trivial = proper truncation or extension; distinct by (value, cut, tail)")
+	s := rt.S("decode-truncations").SetRule("every truncation of the encoding of boundary and drawn values, and extensions by drawn bytes, and the encoding at the head of inputs of 254..131081 bytes; non-trivial = proper truncation or extension; distinct by (value, cut, tail)")
 	vals := boundaries()
 	rt.Check(t, 5000, 300000, func(t *rapid.T) {
 		var v uint64
@@ -205,6 +205,22 @@ func TestDecodeTruncationsAndExtensions(t *testing.T) {
 		}
 		if len(tail) > 0 {
 			s.Nontrivial(enc, []byte{0xff}, tail)
+		}
+		// the encoding at the head of LONG inputs: total lengths around 256, 512, 65536 and beyond (a length kept in a narrow
+		// integer wraps there), every residue of the total length modulo 256 below 9
+		if gen.Uniform(t, 4, "longInput") == 0 {
+			total := gen.Pick(t, []int{256, 512, 768, 4096, 65536, 131072}, "totalBase") + gen.UniformRange(t, -2, 9, "totalDelta")
+			long := make([]byte, total)
+			copy(long, enc)
+			for i := len(enc); i < total; i++ {
+				long[i] = byte(i * 7)
+			}
+			s.Eval()
+			s.Class("long-input")
+			if err := checkDecode(long); err != nil {
+				t.Fatal(err)
+			}
+			s.Nontrivial(enc, []byte{0xfe, byte(total), byte(total >> 8), byte(total >> 16)})
 		}
 		// arbitrary bytes too
 		arb := gen.Bytes(t, 0, 12, "arb")
@@ -237,6 +253,14 @@ func TestVarintBytes(t *testing.T) {
 	s := rt.S("varint-bytes").SetRule("ConsumeVarintBytes on buffers 'varint(declared) || payload' with declared in {remaining-1, remaining, remaining+1, 2^31.., 2^62-1, drawn} and guard bytes behind the slice; AppendVarintBytes round trip; non-trivial = declared != remaining; distinct by (declared, payload)")
 	rt.Check(t, 20000, 600000, func(t *rapid.T) {
 		payload := gen.Bytes(t, 0, 70, "payload")
+		if gen.Uniform(t, 6, "longPayload") == 0 {
+			// payloads around the 1->2->4 byte prefix boundaries and the 8/16-bit length boundaries
+			n := gen.Pick(t, []int{63, 64, 253, 254, 255, 256, 257, 16383, 16384, 65535, 65536}, "longLen") + gen.Uniform(t, 3, "longDelta")
+			payload = make([]byte, n)
+			for i := range payload {
+				payload[i] = byte(i*13 + n)
+			}
+		}
 		rem := uint64(len(payload))
 		kind := rapid.IntRange(0, 5).Draw(t, "kind")
 		var declared uint64
